@@ -182,12 +182,28 @@ def gen_history(rng, info, hid, maxops):
         elif k == "helcoup":
             add(["helcoup", b, rng.random() < 0.6])
         elif k == "naming":
-            add(["naming", b, rng.choice(["parent", "child"] + (["ls"] if inf["canonical"] else [])),
-                 rng.random() < 0.5])
+            flags = ["parent", "child"] + (["ls"] if inf["canonical"] else [])
+            if rng.random() < 0.5:
+                add(["naming", b, rng.choice(flags), rng.random() < 0.5])
+            else:
+                # a walk through the flag space that returns to an earlier flag assignment (often the
+                # default one) by a different route, then formulates: the final configuration is one a
+                # fresh builder reaches with other (or no) setter calls
+                start = {f: tr.builders[b][f] for f in flags}
+                for _ in range(rng.randint(1, 3)):
+                    f = rng.choice(flags)
+                    add(["naming", b, f, not tr.builders[b][f] if rng.random() < 0.8 else tr.builders[b][f]])
+                back = [f for f in flags if tr.builders[b][f] != start[f]]
+                rng.shuffle(back)
+                for f in back:
+                    add(["naming", b, f, start[f]])
+                add(["formulate", b, []])
         elif k == "assign":
             if inf["n_res"] == 0:
                 continue
-            add(["assign", b, rng.randrange(inf["n_res"]), rng.choices([0, 1, 2, 3], weights=[2, 4, 2, 2])[0]])
+            nd = inf.get("n_dyn", 4)
+            add(["assign", b, rng.randrange(inf["n_res"]),
+                 rng.choices(range(nd), weights=([3, 4, 2, 2, 2, 4, 2, 2, 2, 2, 3, 2] + [1] * nd)[:nd])[0]])
         elif k == "regtopo":
             add(["regtopo", b, rng.randrange(inf["n_topos"][v])])
         elif k == "permutate":
@@ -462,6 +478,16 @@ def main_search(seed, n, maxops, workdir, full_seed_matrix=False):
                                                      ["naming", 0, "child", False], ["naming", 0, "parent", False],
                                                      ["formulate", 0, []], ["new", 0], ["naming", 1, "child", False],
                                                      ["formulate", 1, []]]})
+    # naming-flag walks that end in the default flags with the setter under test called LAST, and
+    # a fixed-width form-factor Breit-Wigner followed by plain ones (same / other builder)
+    fixed.append({"reaction": "jpsi_gpipi_hel", "ops": [["new", 0], ["naming", 0, "child", False], ["naming", 0, "parent", False],
+                                                       ["naming", 0, "child", True], ["formulate", 0, []],
+                                                       ["new", 0], ["naming", 1, "parent", True], ["naming", 1, "child", True],
+                                                       ["naming", 1, "parent", False], ["formulate", 1, []]]})
+    fixed.append({"reaction": "jpsi_gpipi_hel", "ops": [["new", 0], ["assign", 0, 0, 5], ["formulate", 0, []], ["assign", 0, 0, 1],
+                                                       ["formulate", 0, []], ["new", 0], ["assign", 1, 0, 10], ["assign", 1, 1, 9],
+                                                       ["formulate", 1, []], ["assign", 1, 1, 11], ["assign", 1, 0, 6],
+                                                       ["formulate", 1, []]]})
     for k, h in enumerate(fixed):
         h["id"] = n + k
         hists.append(h)
